@@ -445,21 +445,12 @@ func (e *Engine) checkTyped(c *core.Ctx, id string) ([]core.Violation, map[strin
 			}
 		}
 	}
-	var res, raceRes []CResult
-	var err1, err2 error
+	var raceRes []CResult
+	var err2 error
 	var wg sync.WaitGroup
-	wg.Add(1)
-	go func() { defer wg.Done(); res, err1 = e.runCAll(e.CPlain, scs, 40, c.Jobs) }()
 	if len(raceScs) > 0 && e.CRace != "" {
 		wg.Add(1)
 		go func() { defer wg.Done(); raceRes, err2 = e.runCAll(e.CRace, raceScs, 20, c.Jobs) }()
-	}
-	wg.Wait()
-	if err1 != nil {
-		return nil, nil, err1
-	}
-	if err2 != nil {
-		return nil, nil, err2
 	}
 	deliver := e.deliverSets()
 	learn := map[string]*learnPkg{}
@@ -476,95 +467,112 @@ func (e *Engine) checkTyped(c *core.Ctx, id string) ([]core.Violation, map[strin
 		r *CRecord
 	}
 	var fails []failure
-	for i := range res {
-		r := &res[i]
-		pkg := scs[i].Pkg
-		if r.ToolTrouble != "" {
-			return nil, nil, build.Toolf("typed scenario %s: %s", r.ID, r.ToolTrouble)
+	ids := map[int]string{}
+	const chunk = 30000
+	for lo := 0; lo < len(scs); lo += chunk {
+		res, err1 := e.runCAll(e.CPlain, scs[lo:min(lo+chunk, len(scs))], 40, c.Jobs)
+		if err1 != nil {
+			wg.Wait()
+			return nil, nil, err1
 		}
-		if r.Missing || r.Aborted {
-			vs = append(vs, core.Violation{Key: "typed/died/" + pkg, Oracle: "the simulation process survives", What: r.ID + ": " + clip(r.Stderr, 1200), Seed: c.Seed, Scenario: map[string]any{"binary": "corpus-plain", "scenario": scs[i]}})
-			continue
-		}
-		if r.Switches > 0 {
-			distinct[r.SchedHash] = true
-		}
-		st := stats[pkg]
-		if st == nil {
-			st = &typedStats{}
-			stats[pkg] = st
-		}
-		aloneBy := map[[2]int]*CRecord{}
-		var ps []failure
-		eval := func(cr *CRecord, conc bool) {
-			if cr.T == nil {
-				return
+		for j := range res {
+			i := lo + j
+			r := &res[j]
+			pkg := scs[i].Pkg
+			if r.ToolTrouble != "" {
+				return nil, nil, build.Toolf("typed scenario %s: %s", r.ID, r.ToolTrouble)
 			}
-			if cr.T.Harness != "" {
-				st.HarnessSkipped++
-				return
+			if r.Missing || r.Aborted {
+				vs = append(vs, core.Violation{Key: "typed/died/" + pkg, Oracle: "the simulation process survives", What: r.ID + ": " + clip(r.Stderr, 1200), Seed: c.Seed, Scenario: map[string]any{"binary": "corpus-plain", "scenario": scs[i]}})
+				continue
 			}
-			switch id {
-			case "C01":
-				for _, p := range typedExact(cr, pkg) {
-					ps = append(ps, failure{i, p, cr})
+			if r.Switches > 0 {
+				distinct[r.SchedHash] = true
+			}
+			st := stats[pkg]
+			if st == nil {
+				st = &typedStats{}
+				stats[pkg] = st
+			}
+			aloneBy := map[[2]int]*CRecord{}
+			var ps []failure
+			eval := func(cr *CRecord, conc bool) {
+				if cr.T == nil {
+					return
 				}
-				for _, p := range typedDeliver(cr, pkg, deliver[pkg]) {
-					ps = append(ps, failure{i, p, cr})
+				if cr.T.Harness != "" {
+					st.HarnessSkipped++
+					return
 				}
-			case "C15":
-				for _, p := range typedC15(cr, pkg) {
-					ps = append(ps, failure{i, p, cr})
-				}
-			case "C19":
-				if conc {
-					for _, p := range typedC19(aloneBy[[2]int{cr.Task, cr.Op}], cr, pkg) {
+				switch id {
+				case "C01":
+					for _, p := range typedExact(cr, pkg) {
 						ps = append(ps, failure{i, p, cr})
+					}
+					for _, p := range typedDeliver(cr, pkg, deliver[pkg]) {
+						ps = append(ps, failure{i, p, cr})
+					}
+				case "C15":
+					for _, p := range typedC15(cr, pkg) {
+						ps = append(ps, failure{i, p, cr})
+					}
+				case "C19":
+					if conc {
+						for _, p := range typedC19(aloneBy[[2]int{cr.Task, cr.Op}], cr, pkg) {
+							ps = append(ps, failure{i, p, cr})
+						}
 					}
 				}
 			}
-		}
-		for _, a := range r.Alone {
-			aloneBy[[2]int{a.Task, a.Op}] = a
-			if id != "C19" {
-				eval(a, false)
+			for _, a := range r.Alone {
+				aloneBy[[2]int{a.Task, a.Op}] = a
+				if id != "C19" {
+					eval(a, false)
+				}
+				learnFrom(learn, pkg, a)
 			}
-			learnFrom(learn, pkg, a)
-		}
-		for _, cr := range r.Conc {
-			st.Calls++
-			if cr.T != nil {
-				opsSeen[pkg+"."+cr.Call.TOp] = true
-				if rs := reachedSide(cr.T); rs != nil {
-					st.Reached++
-					variantsSeen[pkg+"."+cr.Call.TOp+" "+rs.RespType] = true
+			for _, cr := range r.Conc {
+				st.Calls++
+				if cr.T != nil {
+					opsSeen[pkg+"."+cr.Call.TOp] = true
+					if rs := reachedSide(cr.T); rs != nil {
+						st.Reached++
+						variantsSeen[pkg+"."+cr.Call.TOp+" "+rs.RespType] = true
+					}
+					if cr.T.ReqExact {
+						st.ReqExact++
+					}
+					if cr.T.RespExact {
+						st.RespExact++
+					}
+					if cr.T.GotValue {
+						st.GotValue++
+					}
+					if cr.Call.Edge {
+						st.Edge++
+					}
+					st.Defaults += cr.T.Defaults
 				}
-				if cr.T.ReqExact {
-					st.ReqExact++
+				if f := cr.Call.Fault; f != nil {
+					configured[f.Kind]++
+					if cr.FaultFired {
+						fired[f.Kind]++
+					}
 				}
-				if cr.T.RespExact {
-					st.RespExact++
-				}
-				if cr.T.GotValue {
-					st.GotValue++
-				}
-				if cr.Call.Edge {
-					st.Edge++
-				}
-				st.Defaults += cr.T.Defaults
+				eval(cr, true)
 			}
-			if f := cr.Call.Fault; f != nil {
-				configured[f.Kind]++
-				if cr.FaultFired {
-					fired[f.Kind]++
-				}
+			if id == "C19" && r.Deadlock != "" {
+				ps = append(ps, failure{i, problem{"no task blocks forever (bubble deadlock)", clip(r.Deadlock, 1200), "typed/deadlock/" + pkg}, nil})
 			}
-			eval(cr, true)
+			if len(ps) > 0 {
+				ids[i] = r.ID
+			}
+			fails = append(fails, ps...)
 		}
-		if id == "C19" && r.Deadlock != "" {
-			ps = append(ps, failure{i, problem{"no task blocks forever (bubble deadlock)", clip(r.Deadlock, 1200), "typed/deadlock/" + pkg}, nil})
-		}
-		fails = append(fails, ps...)
+	}
+	wg.Wait()
+	if err2 != nil {
+		return nil, nil, err2
 	}
 	if p := os.Getenv("VERIF_TYPED_LEARN"); p != "" {
 		for _, pk := range pkgs {
@@ -591,7 +599,7 @@ func (e *Engine) checkTyped(c *core.Ctx, id string) ([]core.Violation, map[strin
 				note = " (minimised to 1 call)"
 			}
 		}
-		vs = append(vs, core.Violation{Key: f.p.Key, Oracle: f.p.Oracle, What: res[f.i].ID + ": " + clip(f.p.What, 1100) + note, Seed: c.Seed, Scenario: map[string]any{"binary": "corpus-plain", "scenario": sc}})
+		vs = append(vs, core.Violation{Key: f.p.Key, Oracle: f.p.Oracle, What: ids[f.i] + ": " + clip(f.p.What, 1100) + note, Seed: c.Seed, Scenario: map[string]any{"binary": "corpus-plain", "scenario": sc}})
 	}
 	raceReports := 0
 	for i := range raceRes {
